@@ -326,7 +326,19 @@ func runC20(w *mc.Worker) {
 			})
 		})
 	})
-	w.Stage("run-bases", "`numscript run` on the 7 variable-carrying base scripts of C12 with <= 1 deviation (variable values incl. malformed and > 2^64, missing variables, sheets, metadata) x 3 channels, plus syntactically broken scripts", func() {
+	metaVals := []string{"1/1", "0/1", "100%", "0%", "3/6", "1/3", "12.050%", "0", "-1", "007", "9223372036854775807", "[ USD 0 ]", "[ EUR/2 -1 ]", "\"\"", "\"a\\\"b\"", "\"héllo // €\"", "@a:b", "@world", "USD", "EUR/2"}
+	w.Stage("run-values", fmt.Sprintf("`numscript run` on scripts writing each of %d literal values of the six types (whole and reducible portions, zero / negative / largest numbers, empty and quoted strings) to transaction and account metadata x 3 channels", len(metaVals)), func() {
+		w.Outer("run-values/value", 0, func(o *mc.Explorer) {
+			v := metaVals[o.Choose(len(metaVals))]
+			text := "set_tx_meta ( \"k\" , " + v + " )\nset_account_meta ( @a , \"k\" , " + v + " )\n"
+			if !w.Mine(text) {
+				return
+			}
+			w.Owned()
+			w.Inner(0, func(in *mc.Explorer) { runOne(text, nil, sheets[0], nil, false) })
+		})
+	})
+	w.Stage("run-bases", "`numscript run` on the 9 variable-carrying base scripts of C12 with <= 1 deviation (variable values incl. malformed and > 2^64, missing variables, sheets, metadata) x 3 channels, plus syntactically broken scripts", func() {
 		bases := c12Bases()
 		w.Outer("run-bases/base", 0, func(o *mc.Explorer) {
 			bi_ := o.Choose(len(bases) + 2)
